@@ -265,3 +265,86 @@ Lemma det_bind {A B} (p : prog A) (f : A -> prog B) : det p -> (forall a, det (f
 Proof.
   induction p as [a|k c IH|n c IH|off c IH|c IH|c IH|c IH|c IH|c IH|c IH|k|]; cbn [det pbind]; intros Hd Hf; auto.
 Qed.
+
+(* ------------------------------------------------------------------ *)
+(* a run that has not seen the end of its input does not depend on what follows the part it saw *)
+Definition extends_view (v vx : view) (T : bytes) : Prop :=
+  vS vx = vS v ++ T /\ vcur vx = vcur v /\ vmark vx = vmark v /\ vtaken vx = vtaken v /\
+  vknown vx = vknown v /\ vhwm vx = vhwm v /\ vreq vx = vreq v.
+
+Lemma srun_known_mono {A} (p : prog A) : forall v a v', srun p v = ADone a v' -> vknown v = true -> vknown v' = true.
+Proof.
+  induction p as [a|k c IH|n c IH|off c IH|c IH|c IH|c IH|c IH|c IH|c IH|k|]; intros v a0 v0 H Hk; cbn [srun] in H;
+    try discriminate.
+  - inversion H; subst. exact Hk.
+  - eapply IH; [exact H|]. cbn [after_peek vknown]. destruct (vpeek v k); [exact Hk|reflexivity].
+  - destruct (vcur v + n <=? vhwm v); [|discriminate]. eapply IH; [exact H|exact Hk].
+  - eapply IH; [exact H|exact Hk].
+  - eapply IH; [exact H|exact Hk].
+  - eapply IH; [exact H|exact Hk].
+  - eapply IH; [exact H|exact Hk].
+  - eapply IH; [exact H|exact Hk].
+  - eapply IH; [exact H|exact Hk].
+  - eapply IH; [exact H|exact Hk].
+Qed.
+
+Lemma nnth_app_some {A} (a b : list A) i x : nnth a i = Some x -> nnth (a ++ b) i = Some x.
+Proof.
+  intros H. unfold nnth in *. rewrite nth_error_app1; [exact H|]. apply nth_error_Some. congruence.
+Qed.
+
+Theorem srun_prefix {A} (p : prog A) : forall v vx T a v',
+  WFV v -> extends_view v vx T -> srun p v = ADone a v' -> vknown v' = false ->
+  exists vx', srun p vx = ADone a vx' /\ extends_view v' vx' T.
+Proof.
+  induction p as [a|k c IH|n c IH|off c IH|c IH|c IH|c IH|c IH|c IH|c IH|k|]; intros v vx T a0 v0 Hw He H Hk; cbn [srun] in *;
+    try discriminate.
+  - inversion H; subst. exists vx. split; [reflexivity|exact He].
+  - destruct He as (e1 & e2 & e3 & e4 & e5 & e6 & e7).
+    assert (Hkn : vknown (after_peek v k) = false).
+    { destruct (vknown (after_peek v k)) eqn:E; [|reflexivity].
+      rewrite (srun_known_mono _ _ _ _ H E) in Hk. discriminate. }
+    destruct (vpeek v k) as [b|] eqn:Hp; [|cbn [after_peek vknown] in Hkn; rewrite Hp in Hkn; discriminate].
+    assert (Hpx : vpeek vx k = Some b) by (unfold vpeek in *; rewrite e1, e2; apply nnth_app_some; exact Hp).
+    rewrite Hpx. eapply (IH (Some b) (after_peek v k)); eauto using WFV_after_peek.
+    unfold extends_view, after_peek; cbn [vS vcur vmark vtaken vknown vhwm vreq]. rewrite Hp, Hpx, e2, e3, e4, e5, e6, e7.
+    repeat split; auto.
+  - destruct He as (e1 & e2 & e3 & e4 & e5 & e6 & e7).
+    rewrite e2, e6. destruct (vcur v + n <=? vhwm v); [|discriminate].
+    eapply (IH (v_advance v n)); eauto. unfold extends_view, v_advance; cbn [vS vcur vmark vtaken vknown vhwm vreq].
+    rewrite e2. repeat split; auto.
+  - destruct He as (e1 & e2 & e3 & e4 & e5 & e6 & e7).
+    assert (Hs : s_tryload vx off = s_tryload v off).
+    { unfold s_tryload, word_at. rewrite e2, e6. destruct (vcur v + off + 8 <=? vhwm v) eqn:E; [|reflexivity].
+      apply N.leb_le in E. f_equal. f_equal. rewrite e1. unfold window, nfirstn. unfold WFV in Hw.
+      rewrite nskipn_app_l by lia. rewrite firstn_app.
+      replace (N.to_nat 8 - length (nskipn (vcur v + off) (vS v)))%nat with 0%nat.
+      - cbn [firstn]. apply app_nil_r.
+      - unfold nskipn. rewrite skipn_length. unfold nlen in *. lia. }
+    rewrite Hs. eapply (IH _ (v_loaded v off (s_tryload v off))); eauto.
+    + apply WFV_loaded; [exact Hw|apply s_tryload_ok; exact Hw].
+    + unfold extends_view, v_loaded; cbn [vS vcur vmark vtaken vknown vhwm vreq]. rewrite e2, e6. repeat split; auto.
+  - destruct He as (e1 & e2 & e3 & e4 & e5 & e6 & e7).
+    assert (Hkn : vknown v = false).
+    { destruct (vknown v) eqn:E; [|reflexivity]. rewrite (srun_known_mono _ _ _ _ H E) in Hk. discriminate. }
+    assert (Hs : s_atend vx = s_atend v) by (unfold s_atend; rewrite e5, Hkn; reflexivity).
+    rewrite Hs. eapply IH; eauto. repeat split; auto.
+  - destruct He as (e1 & e2 & e3 & e4 & e5 & e6 & e7).
+    assert (Hkn : vknown v = false).
+    { destruct (vknown v) eqn:E; [|reflexivity]. rewrite (srun_known_mono _ _ _ _ H E) in Hk. discriminate. }
+    assert (Hs : s_parked vx = s_parked v) by (unfold s_parked; rewrite e5, Hkn; reflexivity).
+    rewrite Hs. eapply IH; eauto. repeat split; auto.
+  - destruct He as (e1 & e2 & e3 & e4 & e5 & e6 & e7).
+    assert (Hkn : vknown v = false).
+    { destruct (vknown v) eqn:E; [|reflexivity].
+      assert (vknown (v_take v (s_take v)) = true) as E2 by exact E.
+      rewrite (srun_known_mono _ _ _ _ H E2) in Hk. discriminate. }
+    assert (Hs : s_take vx = s_take v) by (unfold s_take; rewrite e5, Hkn; reflexivity).
+    rewrite Hs. eapply (IH _ (v_take v (s_take v))); eauto.
+    unfold extends_view, v_take; cbn [vS vcur vmark vtaken vknown vhwm vreq]. rewrite e4. repeat split; auto.
+  - destruct He as (e1 & e2 & e3 & e4 & e5 & e6 & e7).
+    eapply (IH (v_setmark v)); eauto. unfold extends_view, v_setmark; cbn [vS vcur vmark vtaken vknown vhwm vreq].
+    rewrite e2. repeat split; auto.
+  - destruct He as (e1 & e2 & e3 & e4 & e5 & e6 & e7). rewrite e3. eapply IH; eauto. repeat split; auto.
+  - destruct He as (e1 & e2 & e3 & e4 & e5 & e6 & e7). rewrite e2. eapply IH; eauto. repeat split; auto.
+Qed.
